@@ -1,6 +1,7 @@
 import QR.Model.QRObject
 import QR.Proofs.Except
 import QR.Proofs.History
+import QR.Proofs.SourceTie
 /-
 C18 - out-of-range settings are rejected, in-range settings accepted (all integers), and nothing is produced under an
 out-of-range setting (invariant over operation sequences of any length).
@@ -123,5 +124,15 @@ theorem C18_version_none_after_compile (g : Global) (s : QRState) (d : List Nat)
     (run (g, s) [.setVersion none, .getMatrix]).2 = [.unit, .matrix (framedOpt s.modules.toLists s.border)] ∧
     (run (g, s) [.setVersion none, .getMatrix]).1.2.version = 0 := by
   simp [run, step, ensureMade, h]
+
+/-! ### tie to the source: the model's expressions are the ones translated from the current Python AST (T2) -/
+
+/-- the four validators raise exactly under the conditions that stand in the source now -/
+theorem C18_source_validators (x : Int) :
+    (checkVersion x = if Gen.Code.check_version_bad x then .error .valueError else .ok ()) ∧
+    (checkBoxSize x = if Gen.Code.check_box_size_bad x then .error .valueError else .ok ()) ∧
+    (checkBorder x = if Gen.Code.check_border_bad x then .error .valueError else .ok ()) ∧
+    (checkMaskPattern (some x) = if Gen.Code.check_mask_pattern_bad x then .error .valueError else .ok ()) :=
+  ⟨QR.SourceTie.checkVersion_eq x, QR.SourceTie.checkBoxSize_eq x, QR.SourceTie.checkBorder_eq x, QR.SourceTie.checkMask_eq x⟩
 
 end QR.Props
